@@ -58,6 +58,9 @@ type Reader struct {
 	// {1, half, all but one}: for frames too large to try every count
 	Coarse   bool
 	NoEndMix bool // never deliver data together with the end error
+	// Endless, when set, makes the stream never end: after Data the byte
+	// *Endless is delivered for ever (a peer that keeps sending)
+	Endless *byte
 	// MixEnd (chooser-free reader only): the last bytes are delivered
 	// together with the end error
 	MixEnd bool
@@ -67,11 +70,13 @@ type Reader struct {
 	Pat     *Pattern
 	patZero int
 
-	Off    int
-	Calls  int
-	zeros  int
-	Events []ReadEvent
-	Log    bool
+	Off   int
+	Calls int
+	// Surplus counts the bytes delivered beyond Data by an endless reader
+	Surplus int
+	zeros   int
+	Events  []ReadEvent
+	Log     bool
 	// AfterEnd counts calls made after the end error was returned.
 	AfterEnd int
 	ended    bool
@@ -104,6 +109,17 @@ func (r *Reader) Read(p []byte) (int, error) {
 	left := len(r.Data) - r.Off
 	if len(p) == 0 {
 		return r.note(0, 0, nil)
+	}
+	if left == 0 && r.Endless != nil {
+		n := len(p)
+		if n > 4096 {
+			n = 4096
+		}
+		for i := 0; i < n; i++ {
+			p[i] = *r.Endless
+		}
+		r.Surplus += n
+		return r.note(len(p), n, nil)
 	}
 	if left == 0 {
 		if r.C != nil && r.zeros < r.MaxZero {
@@ -365,11 +381,12 @@ const (
 	EWrapsUnexpEOF                  // Unwrap() == io.ErrUnexpectedEOF
 	ENetTemporary                   // Timeout() and Temporary() report true (net.Error shape)
 	EWrapsShortWrite                // Unwrap() == io.ErrShortWrite
+	EUnhashable                     // a slice-typed error value (like go/scanner.ErrorList): not comparable, not usable as a map key
 	NErrKinds
 )
 
 func (k ErrKind) String() string {
-	return [...]string{"plain", "wraps-EOF", "wraps-ErrUnexpectedEOF", "net-temporary", "wraps-ErrShortWrite"}[k]
+	return [...]string{"plain", "wraps-EOF", "wraps-ErrUnexpectedEOF", "net-temporary", "wraps-ErrShortWrite", "unhashable"}[k]
 }
 
 type wrapErr struct {
@@ -388,6 +405,17 @@ func (e *netErr) Error() string   { return "injected transport failure " + e.tag
 func (e *netErr) Timeout() bool   { return true }
 func (e *netErr) Temporary() bool { return true }
 
+// sliceErr is an error whose dynamic type is a slice: it cannot be compared
+// with == nor hashed. Identity is by backing array (Is method), so that
+// errors.Is(err, E) still means "E is in err's chain".
+type sliceErr []string
+
+func (e sliceErr) Error() string { return "injected transport failure " + e[0] + " (error list)" }
+func (e sliceErr) Is(t error) bool {
+	o, ok := t.(sliceErr)
+	return ok && len(o) > 0 && len(e) > 0 && &o[0] == &e[0]
+}
+
 // NewError returns a fresh injected error of the given kind.
 func NewError(k ErrKind, tag string) error {
 	switch k {
@@ -399,6 +427,8 @@ func NewError(k ErrKind, tag string) error {
 		return &netErr{tag}
 	case EWrapsShortWrite:
 		return &wrapErr{tag, io.ErrShortWrite}
+	case EUnhashable:
+		return sliceErr{tag, "second entry"}
 	}
 	return &InjectedError{Tag: tag}
 }
@@ -410,12 +440,12 @@ func NewError(k ErrKind, tag string) error {
 type WKind int
 
 const (
-	WRaw          WKind = iota // the scripted writer itself
-	WBufio16                   // *bufio.Writer with a 16-byte buffer over it (flushed afterwards)
-	WBufio4096                 // *bufio.Writer with a 4096-byte buffer
-	WRich                      // own type offering WriteString, WriteByte and ReadFrom next to Write
-	WBytesBuffer               // *bytes.Buffer
-	WStringBuilder             // *strings.Builder
+	WRaw           WKind = iota // the scripted writer itself
+	WBufio16                    // *bufio.Writer with a 16-byte buffer over it (flushed afterwards)
+	WBufio4096                  // *bufio.Writer with a 4096-byte buffer
+	WRich                       // own type offering WriteString, WriteByte and ReadFrom next to Write
+	WBytesBuffer                // *bytes.Buffer
+	WStringBuilder              // *strings.Builder
 	NWKinds
 )
 
